@@ -92,7 +92,7 @@ func (r btReport) frames() string {
 }
 
 func checkC20(c *Ctx) {
-	c.Rule = "(a) call chains = EVERY behaviour of Backtrace.tla with <= 3 steps (thorough: also 4 steps with 4 of the fault kinds) over 6 functions and methods (results 0 / 1 / 2) x every call-site shape (4..9 statement forms per callee, including return f()) x 28 fault kinds (6 of them spread over several lines: the operator ends a line), plus TLC-simulated behaviours reaching depth 30 with many completed calls before the fault; each replayed as the script of a generated interpreter program (random function order, case order, padding, one or two files), entered by Load+Call and by Eval with trailing top-level code, optimizer on and off; (b) seeded random MiniGo programs with a fault planted (9 kinds x 9 statement shapes, divisions of two locals, half of them broken after the operator) at a random place; distinct_nontrivial = behaviours with at least one active call at the fault + faulting MiniGo programs"
+	c.Rule = "(a) call chains = EVERY behaviour of Backtrace.tla with <= 3 steps (thorough: also 4 steps with 4 of the fault kinds) over 6 functions and methods (results 0 / 1 / 2) x every call-site shape (5..11 statement forms per callee, including return f(), calls through a function value and calls whose argument list starts on the next line) x 30 fault kinds (8 of them spread over several lines: the operator or the opening parenthesis ends a line), plus TLC-simulated behaviours reaching depth 30 with many completed calls before the fault; each replayed as the script of a generated interpreter program (random function order, case order, padding, one or two files), entered by Load+Call and by Eval with trailing top-level code, optimizer on and off; (b) seeded random MiniGo programs with a fault planted (9 kinds x 9 statement shapes, divisions of two locals, half of them broken after the operator) at a random place; distinct_nontrivial = behaviours with at least one active call at the fault + faulting MiniGo programs"
 	c.Assumptions = []string{"the error text is parsed as documented (first line: function, file:line:column, instruction, message; then one tab-indented line per active call); columns and the instruction name are not compared (they legitimately differ between optimizer modes)", "calls through function literals are outside the property's quantifier (functions and methods) and not generated in (a)"}
 	r := rand.New(rand.NewSource(c.Seed))
 	c20Backtrace(c, r)
@@ -670,9 +670,12 @@ func btGoatName(f btFn) string {
 // shapes per callee class: each is a list of lines with CALL standing for the call expression; the
 // call's line is the one containing CALL
 var btShapes = map[int][][]string{
-	0: {{"CALL"}, {"if d >= 0 {", "\tCALL", "}"}, {"for i := 0; i < 1; i++ {", "\tCALL", "}"}, {"switch {", "case d >= 0:", "\tCALL", "}"}},
+	0: {{"CALL"}, {"if d >= 0 {", "\tCALL", "}"}, {"for i := 0; i < 1; i++ {", "\tCALL", "}"}, {"switch {", "case d >= 0:", "\tCALL", "}"},
+		// through a function value, the argument list starting on the next line (the call is where the "(" is)
+		{"fv := FVALUE", "fvSITE(", "\td + 1)"}},
 	1: {{"CALL"}, {"acc += CALL"}, {"if CALL > 0 {", "\tacc++", "}"}, {"x := CALL", "acc += x"}, {"acc = add(acc, CALL)"}, {"arr[0] = CALL"},
-		{"for i := CALL; i < 0; i++ {", "\tacc++", "}"}, {"switch CALL {", "case -1:", "\tacc++", "}"}, {"TAILRETURN"}},
+		{"for i := CALL; i < 0; i++ {", "\tacc++", "}"}, {"switch CALL {", "case -1:", "\tacc++", "}"},
+		{"fv := FVALUE", "acc += fvSITE(", "\td + 1)"}, {"acc += (CALLOPEN", "\td + 1))"}, {"TAILRETURN"}},
 	2: {{"CALL"}, {"a, s := CALL", "acc += a + len(s)"}, {"if a, _ := CALL; a > 0 {", "\tacc++", "}"}, {"acc, str = CALL"}, {"arr[0], str = CALL"},
 		{"for a, s := CALL; a < 0 && s == \"\"; a++ {", "}"}},
 }
@@ -685,6 +688,8 @@ var btFaultsML = []btFaultML{
 	{[]string{"acc = 1 +", "\tarr[d+100]"}, 1},
 	{[]string{"acc = add(acc,", "\t10/zero)"}, 1},
 	{[]string{"if acc >= 0 &&", "\t10/zero > 1 {", "\tacc++", "}"}, 1},
+	{[]string{"panic(", "\t\"boom\")"}, 0},
+	{[]string{"acc = add(", "\tacc, 10%zero)"}, 1},
 }
 
 // multi-line fault kinds: the fault is on line at (0-based) of the statement lines
@@ -807,9 +812,12 @@ func btBuild(r *rand.Rand, twoFiles bool) *btProgram {
 							skip = true
 						}
 					}
-					if strings.Contains(l, "CALL") || strings.HasPrefix(l, "return ") {
+					if strings.Contains(l, "CALL") || strings.Contains(l, "SITE") || strings.HasPrefix(l, "return ") {
 						at = li
 					}
+					l = strings.ReplaceAll(l, "CALLOPEN", strings.TrimSuffix(call, "d + 1)"))
+					l = strings.ReplaceAll(l, "FVALUE", strings.TrimSuffix(call, "(d + 1)"))
+					l = strings.ReplaceAll(l, "SITE", "")
 					lines = append(lines, strings.ReplaceAll(l, "CALL", call))
 				}
 				if skip {
